@@ -93,6 +93,51 @@ def extract(E, p, self_id, field_names, fetch_pat):
     return seq
 
 
+def _compressible(seq, i):
+    op = seq[i][0]
+    if i + 2 >= len(seq):
+        return False
+    mid, end = seq[i + 1], seq[i + 2]
+    return (end[0][0] in ("rw_unlock_read", "rw_unlock_write") and end[0][1] == op[1]
+            and mid[0][0] not in ("rw_read", "rw_write", "mutex_lock", "named_lock", "fetch_begin"))
+
+
+def non_compressible_sections(seqs):
+    """Raw prefixes (program points) at which SOME path holds its guard across more than one operation."""
+    bad = set()
+    for seq in seqs:
+        for i, (op, oc) in enumerate(seq):
+            if op[0] in ("rw_read", "rw_write") and not _compressible(seq, i):
+                bad.add(tuple(x[0] for x in seq[:i + 1]))
+    return bad
+
+
+def compress(seq, bad=frozenset()):
+    """A guarded section that contains exactly one data operation is one atomic step (the guard makes it
+    atomic with respect to every other section of the same lock); sections holding more than one visible
+    operation keep their explicit lock / unlock steps.  The metrics mutex protects data no property reads."""
+    out = []
+    i = 0
+    while i < len(seq):
+        op, oc = seq[i]
+        if op[0] in ("rw_read", "rw_write") and _compressible(seq, i) \
+                and tuple(x[0] for x in seq[:i + 1]) not in bad:
+            out.append(seq[i + 1])
+            i += 3
+            continue
+        if op[0] == "named_lock":
+            j = i + 1
+            while j < len(seq) and seq[j][0][0] != "named_unlock":
+                j += 1
+            if all(x[0][0] not in ("fetch_begin", "member_insert", "map_remove", "entry_or_default", "observe_member",
+                                   "mutex_lock", "rw_read", "rw_write") for x in seq[i + 1:j]):
+                i = j + 1
+                continue
+        out.append((op, oc))
+        i += 1
+    return out
+
+
 def check_transport(res, E, label, file, method, fetch_pat, exclude_pat, threads, result_is_result):
     body = E.prog.find(file, "Run", method)
     fields = mir.struct_fields("Run", file)
@@ -115,6 +160,8 @@ def check_transport(res, E, label, file, method, fetch_pat, exclude_pat, threads
         s = extract(E, p, selfp.id, fields, fetch_pat)
         if s:
             seqs.append(s)
+    bad = non_compressible_sections(seqs)
+    seqs = [compress(x, bad) for x in seqs]
     # de-duplicate
     uniq = []
     for s in seqs:
@@ -128,7 +175,7 @@ def check_transport(res, E, label, file, method, fetch_pat, exclude_pat, threads
     res.extra.setdefault("automaton", {})[label] = {
         "paths": len(uniq), "nodes": len(nodes), "longest": [" ".join(map(str, op)) + ("=%s" % o if o is not None else "") for op, o in max(uniq, key=len)]}
     checks = [
-        ("fetched-twice", lambda s: s["fetch_count"] >= 2,
+        ("fetched-twice", lambda s: z3.UGE(s["fetch_count"], mc.IV(2)),
          "%s: the same module/repository is fetched twice in one run" % label),
         ("return-during-fetch", lambda s: s["ret_during_fetch"],
          "%s: a user returns (and goes on to read the data) while the fetch is still in progress" % label),
@@ -137,7 +184,7 @@ def check_transport(res, E, label, file, method, fetch_pat, exclude_pat, threads
     ]
     n = 0
     for key, bad, what in checks:
-        trace = M.check(bad, key)
+        trace = M.check(bad, key, final_only=True)
         n += 1
         if trace is not None:
             sched = [st["thread"] for st in trace]
@@ -154,14 +201,31 @@ def check_transport(res, E, label, file, method, fetch_pat, exclude_pat, threads
             with open(fn, "w") as f:
                 json.dump({"property": res.prop, "what": what, "threads": threads,
                            "schedule": trace, "concrete_resimulation_confirms": bool(confirmed)}, f, indent=1)
+            native = ""
+            if confirmed and label == "rsync" and key == "fetched-twice":
+                import nativetest
+                failed, passed, out = nativetest.run_native_test("native_c37", "c37_native")
+                m = re.search(r"C37-NATIVE fetches=(\d+)", out)
+                res.extra.setdefault("native_replays", []).append(
+                    {"test": "c37_native_second_thread_after_remove", "fetches": int(m.group(1)) if m else None,
+                     "test_failed": failed})
+                with open(fn.replace(".json", ".native.log"), "w") as f:
+                    f.write(out[-6000:])
+                if failed:
+                    native = "; reproduced natively: the real rsync::Run::load_module ran the rsync command %s times" % (m.group(1) if m else "?")
+                elif passed:
+                    res.inconclusive.append("rsync: MC schedule for a double fetch did not reproduce with the real code (native test passed)")
+                    continue
+                else:
+                    native = "; native replay could not be built/run"
             if confirmed:
-                res.violation("mc:%s:%s" % (label, key), what + " (schedule re-simulated concretely)", fn)
+                res.violation("mc:%s:%s" % (label, key), what + " (schedule re-simulated concretely%s)" % native, fn)
             else:
                 res.inconclusive.append("%s: solver schedule for %s did not re-simulate" % (label, key))
     # vacuity: a schedule exists in which a fetch happens and all threads finish
     end_ids = [x.id for x in nodes if x.op[0] == "end"]
-    wit = M.check(lambda s: z3.And([s["fetch_count"] == 1] + [z3.Or([s["pc%d" % i] == e for e in end_ids]) for i in range(threads)]),
-                  "witness")
+    wit = M.check(lambda s: z3.And([s["fetch_count"] == mc.IV(1)] + [z3.Or([s["pc%d" % i] == mc.IV(e) for e in end_ids]) for i in range(threads)]),
+                  "witness", final_only=True)
     if wit is None:
         res.inconclusive.append("%s: vacuity - no schedule completes all threads with one fetch" % label)
     else:
